@@ -62,11 +62,11 @@ def F(d, ns, ver, deps='', inner=None):
 
 
 WIDE = (
-    [F(d, 'A', v) for v in VERS for d in ('d1', 'd2')] + [F('d3', 'A', '1.10'), F('d3', 'A', '2.0')] +
-    [F('d1', 'A', '2.0', 'B-1.9'), F('d2', 'A', '2.0', 'B-1.9'), F('d1', 'A', '1.10', 'B-1.10'),
-     F('d2', 'A', '2', 'B-1.9+C-2.0'),
-     F('d1', 'B', '1.9', 'C-2.0'), F('d2', 'B', '1.9'), F('d3', 'B', '1.9', 'C-2.0'), F('d1', 'B', '1.10'), F('d2', 'B', '2'),
-     F('d1', 'C', '2.0'), F('d2', 'C', '2.0'), F('d2', 'C', '2'),
+    [F(d, 'A', v) for v in VERS for d in ('d1', 'd2') if (d, v) != ('d2', '1.x')] +
+    [F('d3', 'A', '1.10'), F('d3', 'A', '2.0')] +
+    [F('d1', 'A', '2.0', 'B-1.9'), F('d2', 'A', '2.0', 'B-1.9'), F('d2', 'A', '2', 'B-1.9+C-2.0'),
+     F('d1', 'B', '1.9', 'C-2.0'), F('d2', 'B', '1.9'), F('d3', 'B', '1.9', 'C-2.0'), F('d2', 'B', '2'),
+     F('d1', 'C', '2.0'), F('d2', 'C', '2.0'),
      F('d1', 'A', '2.0', inner='Z-2.0'), F('d2', 'A', '2.0', inner='A-3.0'), F('d1', 'B', '1.9', inner='Z-1.9'),
      F('d3', 'A', '2.0', inner='A-3.0')]
 )
@@ -79,7 +79,8 @@ CORE = [
     F('d1', 'A', '2.0', inner='A-3.0'), F('d2', 'A', '2.0', inner='Z-2.0'),
 ]
 
-WIDE_THOROUGH_EXTRA = [F('d1', 'A', '2.0', inner='corrupt'), F('d2', 'B', '1.9', inner='corrupt')]
+WIDE_THOROUGH_EXTRA = [F('d2', 'A', '1.x'), F('d2', 'C', '2'), F('d1', 'B', '1.10'), F('d1', 'A', '1.10', 'B-1.10'),
+                       F('d1', 'A', '2.0', inner='corrupt'), F('d2', 'B', '1.9', inner='corrupt')]
 
 MENU = [
     ('r', 'A', None, 0), ('r', 'A', '1.9', 0), ('r', 'A', '1.10', 0), ('r', 'A', '2.0', 0),
